@@ -599,6 +599,8 @@ class Program(object):
             def conv(v, d=0):
                 if d > 12:
                     raise Unfoldable('value too deep')
+                if type(v).__name__ == 'ASet':
+                    return frozenset(v.items)
                 if isinstance(v, ADict):
                     if v.open:
                         raise Unfoldable('open mapping')
